@@ -101,6 +101,7 @@ package rfc8628
 //@   ensures [C16.replay-revokes] (forall s string :: acc_rid[s] != reqId ==> acc_exists[s] == old(acc_exists[s])) && (forall s string :: ref_rid[s] != reqId ==> ref_active[s] == old(ref_active[s]))
 
 //@ func (*DeviceCodeTokenEndpointHandler).HandleTokenEndpointRequest
+//@   modifies anyheap
 //@   let code = formget(old(requester.GetRequestForm()), "device_code")
 //@   let sig = devsig(c.DeviceCodeStrategy, code)
 //@   requires c != nil && requester != nil && !stored[requester] && requester.GetClient() != nil
@@ -152,6 +153,7 @@ package rfc8628
 //@ spec func tables_unchanged8() bool = code_active == old(code_active) && acc_exists == old(acc_exists) && ref_exists == old(ref_exists) && ref_active == old(ref_active) && dev_live == old(dev_live)
 
 //@ func (*DeviceCodeTokenEndpointHandler).PopulateTokenEndpointResponse
+//@   modifies anyheap
 //@   let code = formget(old(requester.GetRequestForm()), "device_code")
 //@   let sig  = devsig(c.DeviceCodeStrategy, code)
 //@   let txl  = implements(c.CoreStorage, storage.Transactional)
@@ -183,6 +185,7 @@ package rfc8628
 //@   ensures err == nil ==> signature == usersig(recv, code)
 
 //@ func (*DeviceAuthHandler).handleDeviceAuthSession
+//@   modifies anyheap
 //@   requires d != nil && dar != nil
 //@   modifies dev_live, dev_used, dev_req, dev_rid, dev_client, stored, faults, tx_escaped
 //@   assert @call(CreateDeviceAuthSession)#1 [C16.codes-stored-as-signatures] deviceCodeSignature == devsig(d.Strategy, deviceCode) && userCodeSignature == usersig(d.Strategy, userCode)
